@@ -157,7 +157,7 @@ def run(ctx):
     rng = ctx.rng
     raw = answers.load_corpus("C16")
     cases = list(raw)
-    gen = answers.gen_cases(ctx, 200 if quick else 4000, (1, 5), (1, 6), [False, True], want=("ok",), q_per=6, consts=0.1, ties=0.2)
+    gen = answers.gen_cases(ctx, 200 if quick else 4000, (1, 5), (1, 6), [False, True], want=("ok",), q_per=6, consts=0.1, ties=0.2, big=0.1)
     for c in gen:
         c = {k: v for k, v in c.items() if not k.startswith("_")}
         n = c["n"] = c["sig"]  # ranking objects range over the signature only
@@ -167,6 +167,9 @@ def run(ctx):
         r = rng.random()
         if r < 0.45:
             facts = [core.gen_formula(rng, n, 2, 0.03) for _ in range(rng.randint(1, 2))]
+            if n >= 6 and rng.random() < 0.6:
+                # a fact of tree height >= 5: a long clause / conjunction over six atoms
+                facts[0] = core.deep_chain(rng, rng.sample(range(n), 6), op=rng.choice(["|", "|", "&"]), pos=0.6)[0]
         if facts:
             extended = rng.choice([None, True, None, False])
             mode_ext = True if extended is None else extended
